@@ -190,7 +190,7 @@ func c04R3(c *Ctx) {
 			fields = append(fields, v)
 		}
 	}
-	requires := map[string][]string{"releaseLocked": {"m.mu"}, "ackBatch": {"m.mu"}, "nackBatch": {"m.mu"}}
+	requires := map[string][]string{"releaseLocked": {"recv.mu"}, "ackBatch": {"recv.mu"}, "nackBatch": {"recv.mu"}}
 	for _, m := range []string{"Ack", "Nack", "releaseLocked", "ackBatch", "nackBatch", "indexOf"} {
 		fn := c.SSA(r, pFunnel, "(*multiAckNacker)."+m)
 		if fn == nil {
@@ -209,7 +209,7 @@ func c04R3(c *Ctx) {
 		}
 		ls := kit.Locksets(fn, spec, nil)
 		for _, call := range kit.CallsTo(fn, Set(relFn)) {
-			c.R.Check(containsLock(ls[call], "m.mu"), r, "multiAckNacker."+m+": releaseLocked called with m.mu held", c.Pos(call.Pos()), "held "+ls[call], "releaseLocked is called without m.mu", true)
+			c.R.Check(containsLock(ls[call], "recv.mu"), r, "multiAckNacker."+m+": releaseLocked called with m.mu held", c.Pos(call.Pos()), "held "+ls[call], "releaseLocked is called without m.mu", true)
 		}
 	}
 	for _, h := range []string{"ackBatch", "nackBatch"} {
@@ -228,9 +228,9 @@ func c04R3(c *Ctx) {
 		c.R.Fail(r, "releaseLocked: parent calls", c.Pos(fn.Pos()), "expected parent.Ack and parent.Nack calls")
 	}
 	// the mutex is held across the parent call: the serialisation of parent calls IS the ordering guarantee
-	ls := kit.Locksets(fn, spec, []string{"m.mu"})
+	ls := kit.Locksets(fn, spec, []string{"recv.mu"})
 	for _, pc := range parentCalls {
-		c.R.Check(containsLock(ls[pc], "m.mu"), r, "releaseLocked: parent call made with m.mu held", c.Pos(pc.Pos()), "held "+ls[pc], "the parent Ack/Nack call is made after releasing m.mu: two branches can reach the source out of position order", true)
+		c.R.Check(containsLock(ls[pc], "recv.mu"), r, "releaseLocked: parent call made with m.mu held", c.Pos(pc.Pos()), "held "+ls[pc], "the parent Ack/Nack call is made after releasing m.mu: two branches can reach the source out of position order", true)
 	}
 	// released advanced only after the parent call succeeded
 	stores := storesToField(fn, releasedF, nil)
